@@ -15,6 +15,7 @@
 
 from fedjax.core import metrics
 from fedjax.core import models
+from fedjax.datasets import shakespeare as shakespeare_dataset
 
 import haiku as hk
 import jax.numpy as jnp
@@ -44,10 +45,11 @@ def create_lstm_model(vocab_size: int = 86,
   Returns:
     Model.
   """
-  # TODO(jaero): Replace these with direct references from dataset.
-  pad = 0
-  bos = vocab_size + 1
-  eos = vocab_size + 2
+  # Label conventions of fedjax.datasets.shakespeare: the reserved labels PAD,
+  # BOS, EOS come first, then the characters, and OOV is the last label.
+  pad = shakespeare_dataset.PAD
+  bos = shakespeare_dataset.BOS
+  eos = shakespeare_dataset.EOS
   oov = vocab_size + 3
   full_vocab_size = vocab_size + 4
   # We do not guess EOS, and if we guess OOV, it's treated as a mistake.
